@@ -287,6 +287,9 @@ func (r restServerProtocol) addProtocolRequestHeaders(meta requestMeta, headers 
 	if len(meta.acceptCompression) != 0 {
 		headers["Accept-Encoding"] = []string{strings.Join(meta.acceptCompression, ", ")}
 	}
+	// The only deadline the backend is told is the client's own: a header of this
+	// name among the client's metadata meant nothing in the client's protocol.
+	headers.Del("X-Server-Timeout")
 	if meta.hasTimeout {
 		value := restEncodeTimeout(meta.timeout)
 		headers["X-Server-Timeout"] = []string{value}
